@@ -289,6 +289,38 @@ def run(ctx):
                             "task calls op(%s)" % ", ".join(want), "task calls op(%s), expected op(%s)" % (", ".join(a), ", ".join(want)))
             elif first:
                 R.incomplete("R-C17-6", "%s task-body" % tag, f.loc(lam), "expected exactly one call of the operator in the task")
+    # ---- R-C17-7 (caller side): worker ids 0..n-1 belong to the workers. The calling thread may invoke the operator itself (with id 0) only on
+    # the branch that enqueues nothing; where tasks of the same call are (or may be) running, an inline invocation shares its id with a worker
+    ninline = 0
+    seen_defs = set()
+    for f in maps:
+        if f.line in seen_defs:
+            continue
+        seen_defs.add(f.line)
+        tag = "map@%d" % f.line
+        pop = [p_ for p_ in f.params if p_.get("n") == "op"]
+        enq = [c for c in f.calls(lambda n: callee(n) in REQUIRES_LOCK or callee(n) == "nano::parallel::queue_t::enqueue")]
+        if not pop or not enq:
+            continue
+        direct = [c for c in f.calls(lambda n: n.get("ck") == "op" and n.get("op") == "()" and n.get("c") and ref_decl(n["c"][0]) == pop[0]["d"])]
+        for c in direct:
+            ninline += 1
+            # the innermost `if` that separates this call from the enqueue calls
+            anc = list(f.ancestors(c))
+            branch_free = False
+            for i_, a_ in enumerate(anc):
+                if a_["k"] == "if":
+                    child = anc[i_ - 1] if i_ > 0 else c
+                    mine = "then" if any(z is child for z in walk(a_["c"][a_["r"].index("then")])) else "else"
+                    here = a_["c"][a_["r"].index(mine)]
+                    if not any(any(z is e_ for z in walk(here)) for e_ in enq):
+                        branch_free = True
+                    break
+            R.check(branch_free, "R-C17-7", "%s inline op@%d" % (tag, c["l"]), f.loc(c),
+                    "the calling thread runs the operator itself only on the branch that enqueues no task",
+                    "`%s` runs on the calling thread with a literal worker id on the branch that also enqueues tasks: worker %s may be executing a task of the same call with "
+                    "the same id at that moment (per-worker buffers indexed by it are then shared by two threads)" % (pp(c)[:50], pp(c["c"][-1])))
+    R.floor("R-C17-7/inline", ninline, 2, "inline invocations of the operator in map (the sequential branches)")
     dtor = F.one("nano::parallel::section_t::~section_t", "src/core/parallel.cpp")
     bl = [c for c in dtor.calls(lambda n: callee(n) == "nano::parallel::section_t::block")]
     R.check(len(bl) == 1 and is_literal(args(bl[0])[0], False) if bl else False, "R-C17-5", "section dtor", dtor.loc(),
